@@ -19,7 +19,8 @@ import os
 import sys
 
 MODULES = ['operator', 'list', 'logic', 'string', 'inquiry']
-CHECKER_CLASSES = ['StringExactChecker', 'StringFuzzyChecker']
+CHECKER_HELPERS = {'RulesChecker': ['_check_satisfied']}
+CHECKER_CLASSES = ['StringExactChecker', 'StringFuzzyChecker', 'RegexChecker', 'RulesChecker']
 
 CMP = {ast.Eq: 'cmpEq', ast.NotEq: 'cmpNe', ast.Lt: 'cmpLt', ast.LtE: 'cmpLe', ast.Gt: 'cmpGt', ast.GtE: 'cmpGe',
        ast.In: 'cmpIn', ast.NotIn: 'cmpNotIn'}
@@ -119,6 +120,14 @@ class Translator:
                 len(e.left.args) == 1 and isinstance(e.comparators[0], ast.Name) and e.comparators[0].id == 'str':
             t = '(typeIsNotStrM %s)' % self.expr(e.left.args[0], env, cname)
             return t if isinstance(e.ops[0], ast.NotEq) else '(pyNot %s)' % t
+        if isinstance(e, ast.BinOp) and isinstance(e.op, (ast.Add, ast.Sub)):
+            return '(%s %s %s)' % ('addM' if isinstance(e.op, ast.Add) else 'subM', self.expr(e.left, env, cname),
+                                   self.expr(e.right, env, cname))
+        if isinstance(e, ast.Compare) and len(e.ops) == 1 and isinstance(e.ops[0], (ast.NotEq, ast.Eq)) and \
+                isinstance(e.left, ast.Call) and isinstance(e.left.func, ast.Name) and e.left.func.id == 'type' and \
+                len(e.left.args) == 1 and isinstance(e.comparators[0], ast.Name) and e.comparators[0].id == 'dict':
+            t = '(typeIsDictM %s)' % self.expr(e.left.args[0], env, cname)
+            return t if isinstance(e.ops[0], ast.Eq) else '(pyNot %s)' % t
         if isinstance(e, ast.List) and not e.elts:
             return 'cEmptyList'
         if isinstance(e, ast.Subscript) and isinstance(e.slice, ast.Slice):
@@ -170,6 +179,15 @@ class Translator:
             if isinstance(f, ast.Name):
                 if f.id == 'isinstance' and len(e.args) == 2 and isinstance(e.args[1], ast.Name):
                     return '(isinstanceM %s "%s")' % (self.expr(e.args[0], env, cname), e.args[1].id)
+                if f.id == '__append__' and len(e.args) == 2:
+                    return '(appendM %s %s)' % (self.expr(e.args[0], env, cname), self.expr(e.args[1], env, cname))
+                if f.id == 'enumerate' and len(e.args) == 1:
+                    return '(enumerateM %s)' % self.expr(e.args[0], env, cname)
+                if f.id == 'callable' and len(e.args) == 1 and isinstance(e.args[0], ast.Call) and \
+                        isinstance(e.args[0].func, ast.Name) and e.args[0].func.id == 'getattr' and \
+                        len(e.args[0].args) == 3 and isinstance(e.args[0].args[1], ast.Constant) and \
+                        e.args[0].args[1].value == 'satisfied':
+                    return '(hasSatisfiedM %s)' % self.expr(e.args[0].args[0], env, cname)
                 if f.id == 'getattr' and len(e.args) == 3:
                     return '(getattrDynM %s %s %s)' % tuple(self.expr(a, env, cname) for a in e.args)
                 if f.id == 'getattr' and len(e.args) == 2:
@@ -198,8 +216,14 @@ class Translator:
                 if len(e.args) != want:
                     raise Untranslatable('%s with %d arguments' % (f.attr, len(e.args)))
                 return '(%s (pure self_%s) %s)' % (prim, f.value.attr, ' '.join(self.expr(a, env, cname) for a in e.args))
+            if isinstance(f, ast.Attribute) and isinstance(f.value, ast.Name) and f.value.id == 're' and \
+                    f.attr == 'fullmatch' and len(e.args) == 2:
+                return '(reFullmatchM %s %s)' % (self.expr(e.args[0], env, cname), self.expr(e.args[1], env, cname))
             if isinstance(f, ast.Attribute) and f.attr == 'allow_access' and not e.args:
                 return '(methAllowAccess %s)' % self.expr(f.value, env, cname)
+            if isinstance(f, ast.Attribute) and f.attr == 'items' and not e.args and isinstance(f.value, ast.Name) and \
+                    f.value.id in env:
+                return '(attrsItemsM %s)' % env[f.value.id]
             if isinstance(f, ast.Attribute) and f.attr == 'items' and not e.args and isinstance(f.value, ast.Attribute) and \
                     f.value.attr == 'context' and isinstance(f.value.value, ast.Name) and f.value.value.id in env:
                 return '(contextItemsM %s)' % env[f.value.value.id]
@@ -214,7 +238,7 @@ class Translator:
                     self.fresh += 1
                     names.append('a%d' % self.fresh)
                     binds.append(self.expr(a, env, cname))
-                inner = '(%s_%s %s)' % (f.attr, cname, ' '.join(['self_%s' % a for a in attrs] + names))
+                inner = '(%s_%s %s)' % (f.attr.lstrip('_'), cname, ' '.join(['self_%s' % a for a in attrs] + names))
                 for nm, val in reversed(list(zip(names, binds))):
                     inner = '(bindM %s fun %s => %s)' % (val, nm, inner)
                 return inner
@@ -253,32 +277,99 @@ class Translator:
         return inner
 
     # ---- statements (continuation style)
-    def block(self, stmts, env, cname, end='cNone'):
+    @staticmethod
+    def _vterm(m):
+        """the value-level term inside an environment entry `(pure X)`"""
+        if not (m.startswith('(pure ') and m.endswith(')')):
+            raise Untranslatable('loop-carried value %s' % m)
+        return m[6:-1]
+
+    @staticmethod
+    def _assigned(stmts):
+        """names assigned anywhere in the statements (nested blocks included)"""
+        out = set()
+        for st in stmts:
+            for n in ast.walk(st):
+                if isinstance(n, (ast.Assign, ast.AugAssign)):
+                    for t in (n.targets if isinstance(n, ast.Assign) else [n.target]):
+                        if isinstance(t, ast.Name):
+                            out.add(t.id)
+                        elif isinstance(t, ast.Tuple):
+                            out.update(x.id for x in t.elts if isinstance(x, ast.Name))
+                if isinstance(n, ast.Call) and isinstance(n.func, ast.Attribute) and n.func.attr == 'append' and \
+                        isinstance(n.func.value, ast.Name):
+                    out.add(n.func.value.id)
+        return out
+
+    @staticmethod
+    def _breaks(stmts):
+        """does a `break` of THIS loop occur (not one of a nested loop)"""
+        def walk(n):
+            if isinstance(n, ast.Break):
+                return True
+            if isinstance(n, (ast.For, ast.While)):
+                return False
+            return any(walk(c) for c in ast.iter_child_nodes(n))
+        return any(walk(st) for st in stmts)
+
+    def block(self, stmts, env, cname, end='cNone', brk=None):
         """`end`: what happens when the block is left at its end (the function: return None; a loop body: go on with the
-        next iteration)"""
+        next iteration) - a Lean term, or a function of the environment at that point when the loop carries variables;
+        `brk`: the same for `break`"""
+        endf = end if callable(end) else (lambda e, _t=end: _t)
         stmts = [s for s in stmts if not is_log_call(s) and not (isinstance(s, ast.Expr) and isinstance(s.value, ast.Constant))]
         if not stmts:
-            return end
+            return endf(env)
         s, rest = stmts[0], stmts[1:]
         if isinstance(s, ast.Continue):
             if end == 'cNone':
                 raise Untranslatable('continue outside a loop')
-            return end
-        if isinstance(s, ast.For) and isinstance(s.target, ast.Tuple) and not s.orelse and \
-                all(isinstance(t, ast.Name) for t in s.target.elts):
+            return endf(env)
+        if isinstance(s, ast.Break):
+            if brk is None:
+                raise Untranslatable('break outside a translated loop')
+            return brk(env)
+        if isinstance(s, ast.For) and not s.orelse and (isinstance(s.target, ast.Name) or (
+                isinstance(s.target, ast.Tuple) and all(isinstance(t, ast.Name) for t in s.target.elts))):
             self.fresh += 1
-            x, k = 'l%d_pair' % self.fresh, 'k%d' % self.fresh
+            n = self.fresh
+            carried = sorted(self._assigned(s.body) & set(env))
+            stateful = bool(carried) or self._breaks(s.body)
             env2 = dict(env)
             inner_binds = []
-            for i, t in enumerate(s.target.elts):
-                nm = 'l%d_%s' % (self.fresh, t.id)
-                env2[t.id] = '(pure %s)' % nm
-                inner_binds.append((nm, '(seqItemM (pure %s) %d)' % (x, i)))
-            body = self.block(s.body, env2, cname, end=k)
+            if isinstance(s.target, ast.Name):
+                x = 'l%d_%s' % (n, s.target.id)
+                env2[s.target.id] = '(pure %s)' % x
+            else:
+                x = 'l%d_pair' % n
+                for i, t in enumerate(s.target.elts):
+                    nm = 'l%d_%s' % (n, t.id)
+                    env2[t.id] = '(pure %s)' % nm
+                    inner_binds.append((nm, '(seqItemM (pure %s) %d)' % (x, i)))
+            if not stateful:
+                k = 'k%d' % n
+                body = self.block(s.body, env2, cname, end=k, brk=None)
+                for nm, val in reversed(inner_binds):
+                    body = '(bindM %s fun %s =>\n      %s)' % (val, nm, body)
+                return '(pyFor %s (fun %s %s =>\n      %s)\n      %s)' % (self.expr(s.iter, env, cname), x, k, body,
+                                                                       self.block(rest, env, cname, end, brk))
+            # the loop carries variables that are assigned in its body (and / or is left by `break`): the state is the
+            # list of their values; the body receives the state, the continuation of the next iteration and that of break
+            st, k, b, r = 's%d' % n, 'k%d' % n, 'b%d' % n, 'r%d' % n
+            for i, name in enumerate(carried):
+                env2[name] = '(pure (stGet %s %d))' % (st, i)
+
+            def vals(e):
+                return '[%s]' % ', '.join(self._vterm(e[name]) for name in carried)
+            body = self.block(s.body, env2, cname, end=lambda e: '(%s %s)' % (k, vals(e)),
+                              brk=lambda e: '(%s %s)' % (b, vals(e)))
             for nm, val in reversed(inner_binds):
                 body = '(bindM %s fun %s =>\n      %s)' % (val, nm, body)
-            return '(pyFor %s (fun %s %s =>\n      %s)\n      %s)' % (self.expr(s.iter, env, cname), x, k, body,
-                                                                   self.block(rest, env, cname, end))
+            env3 = dict(env)
+            for i, name in enumerate(carried):
+                env3[name] = '(pure (stGet %s %d))' % (r, i)
+            return '(pyForS %s (fun %s %s %s %s =>\n      %s)\n      %s\n      (fun %s => %s))' % (
+                self.expr(s.iter, env, cname), x, st, k, b, body, vals(env), r, self.block(rest, env3, cname, end, brk))
         if isinstance(s, ast.Try) and not s.orelse and not s.finalbody and len(s.handlers) == 1 and \
                 isinstance(s.handlers[0].type, ast.Name):
             h = s.handlers[0]
@@ -292,33 +383,66 @@ class Translator:
                 env2[body[0].targets[0].id] = '(pure %s)' % name
                 return '(trySubscriptM %s %s\n      %s\n      (fun %s => %s))' % (
                     self.expr(sub.value, env, cname), self.expr(sub.slice, env, cname),
-                    self.block(h.body + rest, env, cname, end), name, self.block(rest, env2, cname, end))
+                    self.block(h.body + rest, env, cname, end, brk), name, self.block(rest, env2, cname, end, brk))
+            if h.type.id == 'InvalidPatternError' and len(body) == 1 and isinstance(body[0], ast.Assign) and \
+                    len(body[0].targets) == 1 and isinstance(body[0].targets[0], ast.Name) and \
+                    isinstance(body[0].value, ast.Call) and isinstance(body[0].value.func, ast.Attribute) and \
+                    isinstance(body[0].value.func.value, ast.Name) and body[0].value.func.value.id == 'self' and \
+                    body[0].value.func.attr == 'compile' and len(body[0].value.args) == 3:
+                # `self.compile` is compile_regex behind functools.lru_cache (the cache is transparent: C03)
+                name = 'v_' + body[0].targets[0].id
+                env2 = dict(env)
+                env2[body[0].targets[0].id] = '(pure %s)' % name
+                a = [self.expr(x, env, cname) for x in body[0].value.args]
+                return '(tryCompileM %s %s %s\n      %s\n      (fun %s => %s))' % (
+                    a[0], a[1], a[2], self.block(h.body + rest, env, cname, end, brk), name,
+                    self.block(rest, env2, cname, end, brk))
             if h.type.id == 'Exception' and all(isinstance(r, ast.Return) and isinstance(r.value, ast.Name) for r in rest):
                 # what follows the try statement only returns a name: it cannot raise, so it may move into both arms
-                return '(catchAllM %s\n      %s)' % (self.block(s.body + rest, env, cname, end),
-                                                     self.block(h.body + rest, env, cname, end))
+                return '(catchAllM %s\n      %s)' % (self.block(s.body + rest, env, cname, end, brk),
+                                                     self.block(h.body + rest, env, cname, end, brk))
+            if h.type.id == 'Exception' and not rest and len(body) == 1 and isinstance(body[0], ast.Return):
+                # `try: return E  except Exception: HANDLER` as the last statement
+                return '(catchAllM %s\n      %s)' % (self.block(body, env, cname, end, brk),
+                                                     self.block(h.body, env, cname, end, brk))
             raise Untranslatable('try / except ' + h.type.id)
-        if isinstance(s, ast.For) and isinstance(s.target, ast.Name) and not s.orelse:
-            self.fresh += 1
-            x, k = 'l%d_%s' % (self.fresh, s.target.id), 'k%d' % self.fresh
-            env2 = dict(env)
-            env2[s.target.id] = '(pure %s)' % x
-            body = self.block(s.body, env2, cname, end=k)
-            return '(pyFor %s (fun %s %s =>\n      %s)\n      %s)' % (self.expr(s.iter, env, cname), x, k, body,
-                                                                   self.block(rest, env, cname, end))
         if isinstance(s, ast.Return):
             return self.expr(s.value, env, cname) if s.value is not None else 'cNone'
         if isinstance(s, ast.Raise):
             return 'raiseM'
         if isinstance(s, ast.If):
-            return '(iteM %s\n      %s\n      %s)' % (self.expr(s.test, env, cname), self.block(s.body + rest, env, cname, end),
-                                                     self.block(s.orelse + rest, env, cname, end))
+            return '(iteM %s\n      %s\n      %s)' % (self.expr(s.test, env, cname),
+                                                     self.block(s.body + rest, env, cname, end, brk),
+                                                     self.block(s.orelse + rest, env, cname, end, brk))
+        if isinstance(s, ast.Assign) and len(s.targets) == 1 and isinstance(s.targets[0], ast.Tuple) and \
+                isinstance(s.value, ast.Tuple) and len(s.targets[0].elts) == len(s.value.elts) and \
+                all(isinstance(t, ast.Name) for t in s.targets[0].elts) and \
+                all(isinstance(v, ast.Constant) for v in s.value.elts):
+            # a, b = c1, c2 with constants on the right: the order of the single assignments cannot matter
+            singles = [ast.Assign(targets=[t], value=v) for t, v in zip(s.targets[0].elts, s.value.elts)]
+            return self.block(singles + rest, env, cname, end, brk)
+        if isinstance(s, ast.Expr) and isinstance(s.value, ast.Call) and isinstance(s.value.func, ast.Attribute) and \
+                s.value.func.attr == 'append' and isinstance(s.value.func.value, ast.Name) and \
+                s.value.func.value.id in env and len(s.value.args) == 1:
+            # xs.append(e) on a local list: the new value of xs
+            tgt = s.value.func.value.id
+            s = ast.Assign(targets=[ast.Name(id=tgt, ctx=ast.Store())],
+                           value=ast.Call(func=ast.Name(id='__append__', ctx=ast.Load()),
+                                          args=[ast.Name(id=tgt, ctx=ast.Load()), s.value.args[0]], keywords=[]))
+        if isinstance(s, ast.AugAssign) and isinstance(s.target, ast.Name) and isinstance(s.op, ast.Add):
+            s = ast.Assign(targets=[ast.Name(id=s.target.id, ctx=ast.Store())],
+                           value=ast.BinOp(left=ast.Name(id=s.target.id, ctx=ast.Load()), op=ast.Add(), right=s.value))
         if isinstance(s, ast.Assign) and len(s.targets) == 1 and isinstance(s.targets[0], ast.Name):
             name = 'v_' + s.targets[0].id
-            val = self.expr(s.value, env, cname)
+            val = 'cEmptyPyList' if (isinstance(s.value, ast.List) and not s.value.elts) else self.expr(s.value, env, cname)
             env2 = dict(env)
             env2[s.targets[0].id] = '(pure %s)' % name
-            return '(bindM %s fun %s =>\n      %s)' % (val, name, self.block(rest, env2, cname, end))
+            return '(bindM %s fun %s =>\n      %s)' % (val, name, self.block(rest, env2, cname, end, brk))
+        if isinstance(s, ast.Assign) and len(s.targets) > 1 and all(isinstance(t, ast.Name) for t in s.targets):
+            # a = b = c = E
+            first = ast.Assign(targets=[s.targets[0]], value=s.value)
+            others = [ast.Assign(targets=[t], value=ast.Name(id=s.targets[0].id, ctx=ast.Load())) for t in s.targets[1:]]
+            return self.block([first] + others + rest, env, cname, end, brk)
         raise Untranslatable('statement ' + type(s).__name__)
 
     def rule(self, cname):
@@ -352,7 +476,7 @@ class Translator:
         attrs = sorted(self.attrs)
         self.emitted[mname] = attrs
         sig = ' '.join(['self_%s' % a for a in attrs] + ['p_%s' % p for p in params])
-        return '%s_%s (%s : V) : M :=\n    %s\n' % (mname, cname, sig, body)
+        return '%s_%s (%s : V) : M :=\n    %s\n' % (mname.lstrip('_'), cname, sig, body)
 
 
 def translate(repo):
@@ -396,7 +520,12 @@ def translate_checkers(repo):
     ctr = Translator(ctree)
     for cname in CHECKER_CLASSES:
         try:
+            pre = []
+            for helper in CHECKER_HELPERS.get(cname, []):
+                pre.append('/-- `vakt.checker.%s.%s` -/' % (cname, helper))
+                pre.append('def ' + ctr.checker_method(cname, helper))
             text = ctr.checker_method(cname, 'fits')
+            out.extend(pre)
             out.append('/-- `vakt.checker.%s.fits` -/' % cname)
             out.append('def ' + text)
             checkers.append(cname)
@@ -409,6 +538,35 @@ def translate_checkers(repo):
     out.append('')
     out.append('end Vakt.GenCheckers')
     return '\n'.join(out) + '\n', [('checker', c, []) for c in checkers], [('checker', c, r) for c, r in unchecked]
+
+
+PARSER_FUNCTIONS = ['get_tag_indices']
+
+
+def translate_parser(repo):
+    out = ['import Model.PyPrim', '/-! GENERATED by harness/pytolean.py from vakt/parser.py - do not edit -/',
+           'set_option linter.unusedVariables false', 'namespace Vakt.GenParser', 'open Vakt Vakt.PyPrim', '']
+    done, failed = [], []
+    tree = ast.parse(open(os.path.join(repo, 'vakt', 'parser.py')).read())
+    tr = Translator(tree)
+    for fname in PARSER_FUNCTIONS:
+        try:
+            f = tr.helpers[fname]
+            params = [a.arg for a in f.args.args]
+            tr.attrs, tr.fresh = set(), 0
+            env = {p: '(pure p_%s)' % p for p in params}
+            body = tr.block(f.body, env, None)
+            out.append('/-- `vakt.parser.%s` -/' % fname)
+            out.append('def %s (%s : V) : M :=\n    %s\n' % (fname, ' '.join('p_%s' % p for p in params), body))
+            done.append(fname)
+        except (Untranslatable, KeyError) as e:
+            failed.append((fname, str(e)))
+    out.append('def translatedParser : List String := [%s]' % ', '.join('"%s"' % c for c in done))
+    out.append('def untranslatedParser : List (String × String) := [%s]' % ', '.join(
+        '("%s", "%s")' % (c, r.replace('"', "'")) for c, r in failed))
+    out.append('')
+    out.append('end Vakt.GenParser')
+    return '\n'.join(out) + '\n', [('parser', c, []) for c in done], [('parser', c, r) for c, r in failed]
 
 
 GUARD_METHODS = ['check_context_restriction', 'check_policies_allow', 'is_allowed_check']
@@ -474,7 +632,16 @@ def regenerate(repo, lean_dir):
                  % str(e).replace('-/', '- /')[:300])
         gtr, gun = [], [('guard', '*', str(e))]
     changed = _write(os.path.join(lean_dir, 'Gen', 'Guard.lean'), gtext) or changed
-    return changed, translated + ctr + gtr, untranslated + cun + gun
+    try:
+        ptext, ptr, pun = translate_parser(repo)
+    except Exception as e:
+        ptext = ('import Model.PyPrim\n/-! GENERATED by harness/pytolean.py: translation failed: %s -/\n'
+                 'namespace Vakt.GenParser\ndef translatedParser : List String := []\n'
+                 'def untranslatedParser : List (String × String) := []\nend Vakt.GenParser\n'
+                 % str(e).replace('-/', '- /')[:300])
+        ptr, pun = [], [('parser', '*', str(e))]
+    changed = _write(os.path.join(lean_dir, 'Gen', 'Parser.lean'), ptext) or changed
+    return changed, translated + ctr + gtr + ptr, untranslated + cun + gun + pun
 
 
 if __name__ == '__main__':
@@ -484,5 +651,7 @@ if __name__ == '__main__':
         text, tr, un = translate_checkers(repo)
     if '--guard' in sys.argv:
         text, tr, un = translate_guard(repo)
+    if '--parser' in sys.argv:
+        text, tr, un = translate_parser(repo)
     sys.stdout.write(text)
     sys.stderr.write('translated %d, untranslated %d: %r\n' % (len(tr), len(un), un))
